@@ -52,6 +52,10 @@ def t_path(segs, qself=None):
                 if g is None:
                     parts.append("'static")
                     cparts.append("None")
+                elif isinstance(g, tuple) and len(g) == 3 and g[0] == "assoc":
+                    # associated-type binding `Out = Ty` (syn::GenericArgument::AssocType)
+                    parts.append("Out = " + g[1][0])
+                    cparts.append("Some (%s)" % g[1][1])
                 else:
                     parts.append(g[0])
                     cparts.append("Some (%s)" % g[1])
@@ -130,6 +134,8 @@ def gen_type(rng, params, depth=2):
     if k == 5 and params:
         return t_path([(rng.choice(params), None), ("Assoc", None)])
     if k == 6:
+        if rng.random() < 0.5:
+            return t_dyn([[("Tr", ("angle", [("assoc", sub(), None)]))], None])
         return t_dyn([[("Tr", ("angle", [sub()]))], None])
     if k == 7:
         return t_path([("Wrap", ("angle", [None, sub()]))])
